@@ -5,8 +5,22 @@ package impl
 //   jsonrt  <hex document text>
 //       parse with the real parser, json.Marshal, json.Unmarshal into a fresh ast.QueryDocument.
 //       reply  <parsed tree sexp (with positions)>|<hex of the JSON text>|<sexp of the decoded
-//       document, positions zero, or E,<hex error>>|<comma separated loss classes or ->
-//       or PARSEERR when the text does not parse.
+//       document, positions zero, or E,<hex error>>|<comma separated loss classes or ->|<shape statistics>|<same|differs:
+//       the canonical trees of the parsed and of the decoded document, positions zeroed, compared as a whole>
+//       or PARSEERR when the text does not parse.  Shape statistics (generator coverage of C19):
+//       md=<max depth> fd/sd/id=<max depth of a field / spread / inline fragment> notc=<inline fragments
+//       without type condition> sdir/idir=<spreads / inline fragments with directives> aeq/ane=<fields whose
+//       alias equals / differs from the name> bi4/tri4=<'+'-joined windows of 2 / 3 sibling kinds (F S I)
+//       seen at depth >= 4>.
+//   jsonrtlegacytop <hex document text>
+//       self-test of the kind comparison: the same round trip, but the top-level selection sets are
+//       decoded the way decode.go did before its repair (every item as a Field).  reply  <loss classes>.
+//   jsondec <hex JSON text>
+//       json.Unmarshal of the text into a fresh ast.QueryDocument.
+//       reply  <sexp of the decoded document, positions zero> | E,<hex error> | OUTSIDE (the decoded
+//       document is not a value of the tree type of the model: a nil pointer inside a list, an argument or
+//       object field without Value, a variable definition without Type, a Kind outside 0..9, a non-nil
+//       validation link / Comment / Position).
 //   jsonrtv <hex schema text> <hex document text>
 //       the same after validator.Validate(schema, doc) (the document now carries the
 //       "Require validation" links, which are encoded too).
@@ -19,7 +33,12 @@ package impl
 // operation-type, variable-definitions, type.
 
 import (
+	"bytes"
+	"encoding/hex"
 	"encoding/json"
+	"fmt"
+	"io"
+	"regexp"
 	"sort"
 	"strconv"
 	"strings"
@@ -238,6 +257,380 @@ func DocLoss(a, b *ast.QueryDocument) lossSet {
 	return l
 }
 
+/* ---------------- shape statistics ---------------- */
+
+type shapeStats struct {
+	md, fd, sd, id                        int
+	notc, sdir, idir, aeq, ane, fsel, flf int
+	bi4, tri4                             map[string]bool
+}
+
+func kindLetter(x ast.Selection) byte {
+	switch x.(type) {
+	case *ast.Field:
+		return 'F'
+	case *ast.FragmentSpread:
+		return 'S'
+	case *ast.InlineFragment:
+		return 'I'
+	}
+	return '?'
+}
+
+func (st *shapeStats) walk(ss ast.SelectionSet, depth int) {
+	if len(ss) == 0 {
+		return
+	}
+	if depth > st.md {
+		st.md = depth
+	}
+	ks := make([]byte, len(ss))
+	for i, x := range ss {
+		ks[i] = kindLetter(x)
+	}
+	if depth >= 4 {
+		for i := 0; i+2 <= len(ks); i++ {
+			st.bi4[string(ks[i:i+2])] = true
+		}
+		for i := 0; i+3 <= len(ks); i++ {
+			st.tri4[string(ks[i:i+3])] = true
+		}
+	}
+	for _, x := range ss {
+		switch f := x.(type) {
+		case *ast.Field:
+			if depth > st.fd {
+				st.fd = depth
+			}
+			if f.Alias == f.Name {
+				st.aeq++
+			} else {
+				st.ane++
+			}
+			if len(f.SelectionSet) > 0 {
+				st.fsel++
+			} else {
+				st.flf++
+			}
+			st.walk(f.SelectionSet, depth+1)
+		case *ast.FragmentSpread:
+			if depth > st.sd {
+				st.sd = depth
+			}
+			if len(f.Directives) > 0 {
+				st.sdir++
+			}
+		case *ast.InlineFragment:
+			if depth > st.id {
+				st.id = depth
+			}
+			if f.TypeCondition == "" {
+				st.notc++
+			}
+			if len(f.Directives) > 0 {
+				st.idir++
+			}
+			st.walk(f.SelectionSet, depth+1)
+		}
+	}
+}
+
+func setString(m map[string]bool) string {
+	ks := make([]string, 0, len(m))
+	for k := range m {
+		ks = append(ks, k)
+	}
+	sort.Strings(ks)
+	return strings.Join(ks, "+")
+}
+
+// DocShape computes the shape statistics of a parsed document (see the header).
+func DocShape(doc *ast.QueryDocument) string {
+	st := &shapeStats{bi4: map[string]bool{}, tri4: map[string]bool{}}
+	for _, o := range doc.Operations {
+		st.walk(o.SelectionSet, 1)
+	}
+	for _, f := range doc.Fragments {
+		st.walk(f.SelectionSet, 1)
+	}
+	return fmt.Sprintf("md=%d fd=%d sd=%d id=%d notc=%d sdir=%d idir=%d aeq=%d ane=%d fsel=%d flf=%d bi4=%s tri4=%s",
+		st.md, st.fd, st.sd, st.id, st.notc, st.sdir, st.idir, st.aeq, st.ane, st.fsel, st.flf, setString(st.bi4), setString(st.tri4))
+}
+
+/* ---------------- generic JSON trees (inputs of the decoder correspondence) ---------------- */
+
+// JNode is a JSON value with ordered object keys; numbers are kept as their literal.
+type JNode struct {
+	K   byte // n(ull) t(rue) f(alse) i (number literal) s(tring) a(rray) o(bject)
+	S   string
+	A   []*JNode
+	Key []string // object keys, parallel to A
+}
+
+var intLit = regexp.MustCompile(`^-?(0|[1-9][0-9]*)$`)
+
+// ParseJSONTree reads one JSON value, keeping key order and duplicate keys.
+func ParseJSONTree(text []byte) (*JNode, error) {
+	dec := json.NewDecoder(bytes.NewReader(text))
+	dec.UseNumber()
+	n, err := parseJNode(dec)
+	if err != nil {
+		return nil, err
+	}
+	if _, err := dec.Token(); err != io.EOF {
+		return nil, fmt.Errorf("trailing data")
+	}
+	return n, nil
+}
+
+func parseJNode(dec *json.Decoder) (*JNode, error) {
+	tok, err := dec.Token()
+	if err != nil {
+		return nil, err
+	}
+	switch t := tok.(type) {
+	case nil:
+		return &JNode{K: 'n'}, nil
+	case bool:
+		if t {
+			return &JNode{K: 't'}, nil
+		}
+		return &JNode{K: 'f'}, nil
+	case json.Number:
+		return &JNode{K: 'i', S: string(t)}, nil
+	case string:
+		return &JNode{K: 's', S: t}, nil
+	case json.Delim:
+		switch t {
+		case '[':
+			n := &JNode{K: 'a'}
+			for dec.More() {
+				c, err := parseJNode(dec)
+				if err != nil {
+					return nil, err
+				}
+				n.A = append(n.A, c)
+			}
+			_, err := dec.Token()
+			return n, err
+		case '{':
+			n := &JNode{K: 'o'}
+			for dec.More() {
+				kt, err := dec.Token()
+				if err != nil {
+					return nil, err
+				}
+				k, ok := kt.(string)
+				if !ok {
+					return nil, fmt.Errorf("key is not a string")
+				}
+				c, err := parseJNode(dec)
+				if err != nil {
+					return nil, err
+				}
+				n.Key = append(n.Key, k)
+				n.A = append(n.A, c)
+			}
+			_, err := dec.Token()
+			return n, err
+		}
+	}
+	return nil, fmt.Errorf("unexpected token %v", tok)
+}
+
+// Text renders the tree as JSON text.
+func (n *JNode) Text(sb *strings.Builder) {
+	switch n.K {
+	case 'n':
+		sb.WriteString("null")
+	case 't':
+		sb.WriteString("true")
+	case 'f':
+		sb.WriteString("false")
+	case 'i':
+		sb.WriteString(n.S)
+	case 's':
+		b, _ := json.Marshal(n.S)
+		sb.Write(b)
+	case 'a':
+		sb.WriteByte('[')
+		for i, c := range n.A {
+			if i > 0 {
+				sb.WriteByte(',')
+			}
+			c.Text(sb)
+		}
+		sb.WriteByte(']')
+	case 'o':
+		sb.WriteByte('{')
+		for i, c := range n.A {
+			if i > 0 {
+				sb.WriteByte(',')
+			}
+			b, _ := json.Marshal(n.Key[i])
+			sb.Write(b)
+			sb.WriteByte(':')
+			c.Text(sb)
+		}
+		sb.WriteByte('}')
+	}
+}
+
+// Sexp renders the tree for the driver op jsondec; ok is false when the tree is outside what the
+// model's Json type holds (a number that is not an integer literal).
+func (n *JNode) Sexp(sb *strings.Builder) (ok bool) {
+	switch n.K {
+	case 'n':
+		sb.WriteString("N")
+	case 't':
+		sb.WriteString("T")
+	case 'f':
+		sb.WriteString("F")
+	case 'i':
+		if !intLit.MatchString(n.S) || len(n.S) > 18 {
+			return false
+		}
+		if n.S == "-0" {
+			sb.WriteString("0")
+		} else {
+			sb.WriteString(n.S)
+		}
+	case 's':
+		sb.WriteString("x" + hex.EncodeToString([]byte(n.S)))
+	case 'a':
+		sb.WriteString("(A")
+		for _, c := range n.A {
+			sb.WriteByte(' ')
+			if !c.Sexp(sb) {
+				return false
+			}
+		}
+		sb.WriteByte(')')
+	case 'o':
+		sb.WriteString("(O")
+		for i, c := range n.A {
+			sb.WriteString(" x" + hex.EncodeToString([]byte(n.Key[i])) + " ")
+			if !c.Sexp(sb) {
+				return false
+			}
+		}
+		sb.WriteByte(')')
+	}
+	return true
+}
+
+func outsideValue(v *ast.Value) bool {
+	if v == nil || v.Kind < 0 || v.Kind > 9 || v.Comment != nil || v.Definition != nil || v.VariableDefinition != nil || v.ExpectedType != nil {
+		return true
+	}
+	for _, c := range v.Children {
+		if c == nil || c.Comment != nil || outsideValue(c.Value) {
+			return true
+		}
+	}
+	return false
+}
+
+func outsideArgs(as ast.ArgumentList) bool {
+	for _, a := range as {
+		if a == nil || a.Comment != nil || outsideValue(a.Value) {
+			return true
+		}
+	}
+	return false
+}
+
+func outsideDirs(ds ast.DirectiveList) bool {
+	for _, d := range ds {
+		if d == nil || d.ParentDefinition != nil || d.Definition != nil || outsideArgs(d.Arguments) {
+			return true
+		}
+	}
+	return false
+}
+
+func outsideSels(ss ast.SelectionSet) bool {
+	for _, x := range ss {
+		switch f := x.(type) {
+		case *ast.Field:
+			if f == nil || f.Definition != nil || f.ObjectDefinition != nil || f.Position != nil || f.Comment != nil ||
+				outsideArgs(f.Arguments) || outsideDirs(f.Directives) || outsideSels(f.SelectionSet) {
+				return true
+			}
+		case *ast.FragmentSpread:
+			if f == nil || f.Definition != nil || f.ObjectDefinition != nil || f.Comment != nil || outsideDirs(f.Directives) {
+				return true
+			}
+		case *ast.InlineFragment:
+			if f == nil || f.ObjectDefinition != nil || f.Position != nil || f.Comment != nil || outsideDirs(f.Directives) || outsideSels(f.SelectionSet) {
+				return true
+			}
+		default:
+			return true
+		}
+	}
+	return false
+}
+
+func outsideVarDefs(vs ast.VariableDefinitionList) bool {
+	for _, v := range vs {
+		if v == nil || v.Type == nil || v.Comment != nil || v.Definition != nil || (v.DefaultValue != nil && outsideValue(v.DefaultValue)) || outsideDirs(v.Directives) {
+			return true
+		}
+	}
+	return false
+}
+
+// outsideTree: the document is not a value of the tree type of the model (see jsondec)
+func outsideTree(d *ast.QueryDocument) bool {
+	if d.Comment != nil {
+		return true
+	}
+	for _, o := range d.Operations {
+		if o == nil || o.Position != nil || o.Comment != nil || outsideVarDefs(o.VariableDefinitions) || outsideDirs(o.Directives) || outsideSels(o.SelectionSet) {
+			return true
+		}
+	}
+	for _, f := range d.Fragments {
+		if f == nil || f.Definition != nil || f.Position != nil || f.Comment != nil || outsideVarDefs(f.VariableDefinition) || outsideDirs(f.Directives) || outsideSels(f.SelectionSet) {
+			return true
+		}
+	}
+	return false
+}
+
+// legacyTop re-decodes the top-level selection sets of the JSON text the way UnmarshalSelectionSet
+// did before its repair: every item through the Field decoder.
+func legacyTop(text []byte, back *ast.QueryDocument) {
+	var raw struct {
+		Operations []struct{ SelectionSet []json.RawMessage }
+		Fragments  []struct{ SelectionSet []json.RawMessage }
+	}
+	if json.Unmarshal(text, &raw) != nil {
+		return
+	}
+	redo := func(items []json.RawMessage) ast.SelectionSet {
+		out := ast.SelectionSet{}
+		for _, it := range items {
+			var f ast.Field
+			if json.Unmarshal(it, &f) == nil {
+				out = append(out, &f)
+			}
+		}
+		return out
+	}
+	for i := range raw.Operations {
+		if i < len(back.Operations) && back.Operations[i] != nil {
+			back.Operations[i].SelectionSet = redo(raw.Operations[i].SelectionSet)
+		}
+	}
+	for i := range raw.Fragments {
+		if i < len(back.Fragments) && back.Fragments[i] != nil {
+			back.Fragments[i].SelectionSet = redo(raw.Fragments[i].SelectionSet)
+		}
+	}
+}
+
 func jsonRoundTrip(doc *ast.QueryDocument) (text []byte, back *ast.QueryDocument, err error) {
 	text, err = json.Marshal(doc)
 	if err != nil {
@@ -260,11 +653,49 @@ func init() {
 		sx := SexpQuery(doc)
 		text, back, err := jsonRoundTrip(doc)
 		if err != nil {
-			return sx + "|" + HexW(text) + "|E," + HexW([]byte(err.Error())) + "|-"
+			return sx + "|" + HexW(text) + "|E," + HexW([]byte(err.Error())) + "|-|" + DocShape(doc) + "|-"
 		}
 		s := Sx{NoPos: true}
 		s.QueryDoc(back)
-		return sx + "|" + HexW(text) + "|" + s.String() + "|" + DocLoss(doc, back).String()
+		// the canonical trees with positions zeroed, compared as a whole (independent of DocLoss)
+		o := Sx{NoPos: true}
+		o.QueryDoc(doc)
+		whole := "same"
+		if o.String() != s.String() {
+			whole = "differs"
+		}
+		return sx + "|" + HexW(text) + "|" + s.String() + "|" + DocLoss(doc, back).String() + "|" + DocShape(doc) + "|" + whole
+	}
+	Ops["jsonrtlegacytop"] = func(a []string) string {
+		b, _ := UnhexW(a[0])
+		doc, err := parser.ParseQuery(&ast.Source{Input: string(b), Name: "s0"})
+		if err != nil {
+			return "PARSEERR"
+		}
+		text, back, err := jsonRoundTrip(doc)
+		if err != nil {
+			return "E"
+		}
+		legacyTop(text, back)
+		return DocLoss(doc, back).String()
+	}
+	Ops["jsondec"] = func(a []string) (out string) {
+		b, _ := UnhexW(a[0])
+		back := &ast.QueryDocument{}
+		if err := json.Unmarshal(b, back); err != nil {
+			return "E," + HexW([]byte(err.Error()))
+		}
+		defer func() {
+			if recover() != nil {
+				out = "OUTSIDE"
+			}
+		}()
+		if outsideTree(back) {
+			return "OUTSIDE"
+		}
+		s := Sx{NoPos: true}
+		s.QueryDoc(back)
+		return s.String()
 	}
 	Ops["jsonrtv"] = func(a []string) string {
 		schema, doc, bad := loadPair(a[0], a[1])
